@@ -63,6 +63,8 @@ func (c *checker) replay() {
 				fmt.Println("replay: unknown native case", rec.Prog, rec.Family, rec.Pos)
 				os.Exit(3)
 			}
+		case "alias":
+			what, detail, err = c.replayAlias(&rec)
 		case "multi":
 			var blocks [][]string
 			for _, b := range append(append([]string{}, rec.History...), rec.Prog) {
